@@ -204,6 +204,8 @@ def run_case(clause, case):
 
     outcome in {"ok", "violation", "skip"}; any other exception propagates."""
     ctx = Ctx()
+    # which calls drop their documented-default keywords alternates, starting from a parity that is a pure function of the case
+    ctx._default_calls = int(case_hash(case), 16) % 2
     out = {"outcome": "ok", "sig": None, "msg": "", "skip": None}
     import contextlib
     import io
